@@ -114,8 +114,12 @@ var r3kinds = []r3kind{
 		return &rhp3.RPCFinalizeProgramRequest{Signature: r.sig(), RevisionNumber: r.u64(), ValidProofValues: r.curs(2), MissedProofValues: r.curs(3)}
 	}},
 	{"RPCFinalizeProgramResponse", 0, func(r *rng, n int) rhp3.ProtocolObject { return &rhp3.RPCFinalizeProgramResponse{Signature: r.sig()} }},
-	{"RPCLatestRevisionRequest", 0, func(r *rng, n int) rhp3.ProtocolObject { return &rhp3.RPCLatestRevisionRequest{ContractID: types.FileContractID(r.hash())} }},
-	{"RPCLatestRevisionResponse", 0, func(r *rng, n int) rhp3.ProtocolObject { return &rhp3.RPCLatestRevisionResponse{Revision: r.v1Revision()} }},
+	{"RPCLatestRevisionRequest", 0, func(r *rng, n int) rhp3.ProtocolObject {
+		return &rhp3.RPCLatestRevisionRequest{ContractID: types.FileContractID(r.hash())}
+	}},
+	{"RPCLatestRevisionResponse", 0, func(r *rng, n int) rhp3.ProtocolObject {
+		return &rhp3.RPCLatestRevisionResponse{Revision: r.v1Revision()}
+	}},
 	{"RPCRenewContractRequest", 6, func(r *rng, n int) rhp3.ProtocolObject {
 		return &rhp3.RPCRenewContractRequest{TransactionSet: r.v1Txns(n, 1), RenterKey: r.unlockKey(), FinalRevisionSignature: r.sig()}
 	}},
